@@ -590,6 +590,8 @@ pub struct Gen<'a> {
 const IDENTS: &[&str] = &[
     "a", "b", "c", "foo", "bar-baz", "_x", "-y", "B", "h1", "div", "x1", "\u{e9}t\u{e9}", "\u{540d}", "\u{1f600}k",
     "a\\:b", "\\31 0", "q\\ r", "host", "calc", "rpx", "not", "e", "E",
+    // names that already begin with a configured prefix and `--` (and with `--` alone, for the empty prefix)
+    "p--t", "--x", "my-comp--a", "\u{524d}\u{7f00}--b", "p--p--t",
 ];
 const PROPS: &[&str] = &[
     "color", "width", "margin", "padding", "z-index", "font", "background", "--v", "--main-color", "transform",
@@ -1146,11 +1148,20 @@ impl<'a> Gen<'a> {
         }
         if self.rng.chance(1, 3) {
             self.feat("import-media");
-            let q = match self.rng.below(4) {
-                0 => format!("screen{}and{}(min-width:{}{})", self.ws(), self.ws(), self.ows(), self.dimension()),
-                1 => "print".to_string(),
-                2 => format!("(orientation: landscape){},{}print", self.ows(), self.ows()),
-                _ => format!("not{}all", self.ws()),
+            // every media type (also `all`, in either case, which matches every device and still has to be
+            // carried into the wrapper with the rest of its query)
+            let types = ["screen", "print", "all", "ALL", "All", "speech", "tv"];
+            let ty = *self.rng.pick(&types);
+            let ty2 = *self.rng.pick(&types);
+            let q = match self.rng.below(8) {
+                0 => format!("{}{}and{}(min-width:{}{})", ty, self.ws(), self.ws(), self.ows(), self.dimension()),
+                1 => ty.to_string(),
+                2 => format!("(orientation: landscape){},{}{}", self.ows(), self.ows(), ty),
+                3 => format!("not{}{}", self.ws(), ty),
+                4 => format!("{}{},{}{}", ty, self.ows(), self.ows(), ty2),
+                5 => format!("only{}{}{}and{}(color)", self.ws(), ty, self.ws(), self.ws()),
+                6 => format!("{}{}and{}(color){}and{}(min-width: {})", ty, self.ws(), self.ws(), self.ws(), self.ws(), self.dimension()),
+                _ => format!("{}{}and{}(color){},{}{}{}and{}(monochrome)", ty, self.ws(), self.ws(), self.ows(), self.ows(), ty2, self.ws(), self.ws()),
             };
             s.push_str(&format!("{}{}", self.ws(), q));
         }
